@@ -62,7 +62,16 @@ def build_finder(cfg):
         basis = CS.Basis[b[5:]]
     else:
         basis = b
-    f = CS.CircuitFinderSat(TruthTableModel(tt), cfg["r"], basis=basis, need_normalized=cfg.get("norm", False))
+    model = TruthTableModel(tt)
+    if cfg.get("model_copy") == "deepcopy":
+        import copy
+
+        model = copy.deepcopy(model)  # don't-cares equal to, but not identical with, the DontCare constant
+    elif cfg.get("model_copy") == "pickle":
+        import pickle
+
+        model = pickle.loads(pickle.dumps(model))
+    f = CS.CircuitFinderSat(model, cfg["r"], basis=basis, need_normalized=cfg.get("norm", False))
     from cirbo.synthesis import exception as EX
 
     for con in cfg.get("constraints", []):
@@ -472,6 +481,13 @@ def make_configs(tier, rnd):
     for _ in range(400 if thorough else 80):
         tt = [[rnd.choice([0, 1, 1, 0, "*"]) for _ in range(4)] for _ in range(2)]
         cfgs.append(dict(tt=tt, r=rnd.randint(1, 4), basis=rnd.choice(bases + CUSTOM), norm=rnd.random() < 0.2))
+        if _ % 3 == 0:
+            # the model went through deepcopy / pickle: its don't-cares are equal to DontCare without being that object
+            cfgs.append(dict(tt=tt, r=rnd.randint(1, 3), basis=rnd.choice(bases[:3]), model_copy=rnd.choice(["deepcopy", "pickle"])))
+    for mc in ("deepcopy", "pickle"):
+        cfgs.append(dict(tt=[[0, 0, 0, 1], [0, 1, 1, "*"]], r=2, basis="enum:AIG", model_copy=mc))
+        cfgs.append(dict(tt=[[0, 1, 1, "*"], ["*", 0, 0, 1]], r=2, basis="enum:XAIG", model_copy=mc))
+        cfgs.append(dict(tt=[["*", 1, 1, 0]], r=1, basis="enum:FULL", model_copy=mc))
     # n = 3
     for _ in range(300 if thorough else 50):
         m = rnd.choice([1, 1, 2])
